@@ -22,6 +22,7 @@ class checkpoint(Flow):
         if not steps:
             steps = []
         super().__init__(*steps)
+        self.steps = list(steps)
         self.checkpoint_name = checkpoint_name
         self.checkpoint_path = os.path.join(checkpoint_path, checkpoint_name)
         self.resources = resources
@@ -43,5 +44,6 @@ class checkpoint(Flow):
                                                 _notify_checkpoint_saved(self.checkpoint_name)))
 
     def handle_flow_checkpoint(self, parent_chain):
-        self.chain = itertools.chain(self.chain, parent_chain)
+        # rebuilt on every run: a Flow object may be run more than once
+        self.chain = self.steps + list(parent_chain)
         return [self]
